@@ -185,6 +185,8 @@ class Ctx:
             return False
         if v.get("init") is None:
             return False
+        if v.get("ref"):
+            return True       # a reference cannot be re-bound: it always denotes its initialiser (writes go to the referent)
         return not self.mut.get(d)
 
     def unstable_init(self, d):
